@@ -410,6 +410,20 @@ def r10e(ctx):
               ast.unparse(first), key_detail="event source")
 
 
+def r10f(ctx):
+    repo = ctx.repo
+    ctx.rule("R10f", "the off-cone cut compares the viewing angle with the Cherenkov angle of the ice *at the particle's vertex*: arccos(1 / ice.index(vertex depth))", expected=1, kind="N")
+    fn = repo.member(K, "event")
+    st = [n for n in ast.walk(fn) if isinstance(n, ast.Assign) and ast.unparse(n.targets[0]) == "theta_c"]
+    want = NF().nf(parse_expr("np.arccos(1/self.ice.index(particle.vertex[2]))"))
+    ok = len(st) == 1 and NF().nf(st[0].value).equals(want)
+    ctx.check(ok, "R10f", K + ".event", "theta_c = arccos(1 / index of refraction at the vertex depth)", ast.unparse(st[0].value) if st else "no assignment to theta_c",
+              key_detail="cherenkov angle", loc=ctx.loc("pyrex.kernel", st[0] if st else fn))
+    use = [n for n in ast.walk(fn) if isinstance(n, ast.Compare) and "theta_c" in ast.unparse(n) and "offcone_max" in ast.unparse(n)]
+    ok = len(use) == 1 and ast.unparse(use[0]).replace(" ", "") in ("np.abs(psi-theta_c)>self.offcone_max", "self.offcone_max<np.abs(psi-theta_c)")
+    ctx.check(ok, "R10f", K + ".event", "the cut is |psi - theta_c| > offcone_max", ast.unparse(use[0]) if use else "", key_detail="off-cone comparison")
+
+
 def run(ctx):
     fam = families(ctx.repo, ctx.tier)
     ctx.analysed["families"] = {k: [c.qual for c in v] for k, v in fam.items()}
@@ -418,10 +432,13 @@ def run(ctx):
     ctx.guard(r10c)
     ctx.guard(r10d)
     ctx.guard(r10e)
+    ctx.guard(r10f)
 
 
 SELFTEST = {
     "faults": [
+        {"name": "Cherenkov angle from the tracer's lower endpoint", "file": "pyrex/kernel.py", "old": "theta_c = np.arccos(1/self.ice.index(particle.vertex[2]))",
+         "new": "theta_c = np.arccos(1/rt.n0)", "rule": "R10f"},
         {"name": "per-antenna lists built by repetition (shared list)", "file": "pyrex/kernel.py",
          "old": "        ray_paths = []\n        polarizations = []\n        for i in range(len(self.antennas)):\n            ray_paths.append([])\n            polarizations.append([])\n",
          "new": "        ray_paths = [[]] * len(self.antennas)\n        polarizations = [[]] * len(self.antennas)\n", "rule": "R10b"},
